@@ -41,6 +41,9 @@ def programs():
                                          "overloads": [["x", {"expr": O("B")}], ["y", {"expr": {"k": "tmpl", "text": "t{C}", "params": []}}]]},
                                      d2={"args": [["a", O("A", dk="const", dv=0)]], "dispatch": O("D", dk="const", dv="x"),
                                          "overloads": [["x", {"expr": O("S.X", dk="const", dv="sx")}], ["y", {"expr": O("E", dk="const", dv=1)}]]}))
+    # one dataset object bound to several parameters of one consumer (and used twice inside one collection)
+    add("same-dataset-several-parameters", prog(DS(2), d1={"args": [["a", O("A", dk="const", dv=0)]], "effects": ["e"]},
+                                                d2={"args": [["x", DS(1)], ["y", DS(1)], ["z", {"k": "tuple", "items": [DS(1), DS(1)]}]], "cache": "nocache"}))
     # a coalesce member that is REJECTED although every key it reads is present (value outside its domain): keys() and
     # evaluate() must agree on the member that is used
     add("coalesce-domain-rejected-member", prog({"k": "tuple", "items": [
